@@ -119,4 +119,10 @@ example : Harmless .tcp 11 [.data [0, 1, 0], .timeout, .data [0, 0, 5, 1]] := by
     simpa [evData] using this
   omega
 
+/-- a call made with an already cancelled context returns the context's error (after the write), whatever the
+transport would deliver -/
+theorem precancelled_returns_ctx (k : ClientKind) (fl : Flusher) (hooks : Bool) (req : Bytes) :
+    (doExchangeCancelled k fl hooks req false).1 = .err .ctx := by
+  simp [doExchangeCancelled]
+
 end Modbus.Properties.C08
